@@ -407,6 +407,14 @@ def trace_case(rng, tier, with_aligner=False):
         opts['saliency'] = rng.uniform(0.2, 2.0, size=(1,) * len(lead) + (N,))
         if len(lead) == 1 and _TRC[0] % 6 == 0:
             opts['weight_constant_axis'] = [(-3,), (-3, -1)][(_TRC[0] // 6) % 2]
+    if not with_aligner and _TRC[0] % 5 == 1 and N >= K * (D + 2):
+        # a hard start (labels / oracle mask): one-hot, integer or boolean typed, together with fractional saliency weights;
+        # balanced classes with more than D + 1 members each
+        lab0 = np.stack([rng.permutation(N) % K for _ in range(int(np.prod(lead, dtype=int)))]).reshape(*lead, N)
+        hard = np.moveaxis(np.eye(K, dtype=np.int64)[lab0], -1, -2)
+        init = hard.astype(bool) if _TRC[0] % 10 == 1 else hard
+        if 'saliency' not in opts:
+            opts['saliency'] = rng.uniform(0.2, 0.9, size=(*lead, N))
     aligner = None
     if with_aligner:
         opts['weight_constant_axis'] = [(-3,), (-3, -1), -3][int(rng.integers(0, 3))]
@@ -415,7 +423,7 @@ def trace_case(rng, tier, with_aligner=False):
     iters = int(rng.integers(2, 5 if tier == 'quick' else 9))
     rp = {'fn': 'trace', 'model': name, 'data': {k: v for k, v in data.items() if k != 'labels'}, 'init': init,
           'opts': opts, 'iterations': iters, 'aligner': aligner}
-    label = 'EM trace %s K=%d D=%d N=%d lead=%s iters=%d aligner=%s opts=%s' % (name, K, D, N, lead, iters, aligner, mm.describe_options(opts))
+    label = 'EM trace %s K=%d D=%d N=%d lead=%s iters=%d aligner=%s init=%s opts=%s' % (name, K, D, N, lead, iters, aligner, init.dtype, mm.describe_options(opts))
     sal = opts.get('saliency')
     return _mk(rp, label, sal is None or np.ptp(sal) > 0, rng, kind='trace/' + name + ('/aligner' if aligner else ''))
 
@@ -461,7 +469,7 @@ def eval_trace(rp, rng):
     parts = []
     yn = mm.normalized(name, data)
     # --- start values
-    if np.abs(trace[0]['affiliation'] - init).max() != 0:
+    if np.abs(np.asarray(trace[0]['affiliation'], float) - np.asarray(init, float)).max() != 0:
         return 'first M-step did not receive the initial affiliation', 'trace:start:%s' % name, None
     if 'quadratic_form' in trace[0] and np.any(trace[0]['quadratic_form'] != 1):
         return 'first cACG M-step did not start from an all-ones quadratic form', 'trace:start-q:%s' % name, None
@@ -687,8 +695,13 @@ def repeat_case(rng, tier):
     if rng.random() < 0.5:
         s = s.astype(np.int64)        # counts are naturally integers
     seed = int(rng.integers(0, 2 ** 31))
-    rp = {'fn': 'repeat', 'what': name, 'N': N, 'D': D, 'K': K, 's': s, 'seed': seed, 'iters': int(rng.integers(1, 4))}
-    return _mk(rp, 'integer saliency vs repetition: %s N=%d D=%d K=%d iters=%d' % (name, N, D, K, rp['iters']), bool((s > 1).any()), rng,
+    _RPC[0] += 1
+    if _RPC[0] % 3:
+        N = K * (D + 2) + int(rng.integers(0, 4))          # hard start: every class keeps more than D + 1 distinct observations
+        s = np.floor(rng.uniform(1, 5, size=N)).astype(s.dtype)
+    rp = {'fn': 'repeat', 'what': name, 'N': N, 'D': D, 'K': K, 's': s, 'seed': seed, 'iters': int(rng.integers(1, 4)),
+          'hard': [None, 'bool', 'int64'][_RPC[0] % 3]}
+    return _mk(rp, 'integer saliency vs repetition: %s N=%d D=%d K=%d iters=%d start=%s' % (name, N, D, K, rp['iters'], rp['hard']), bool((s > 1).any()), rng,
                kind='repeat/' + name)
 
 
@@ -725,6 +738,9 @@ def eval_repeat(rp, rng):
         lead = (2,) if what in mm.INTEGRATION else ()
         data = mm.make_data(r, what, K, D, N, lead)
         init = mm.make_init(r, K, N, lead)
+        if rp.get('hard'):
+            lab0 = np.stack([r.permutation(N) % K for _ in range(int(np.prod(lead, dtype=int)))]).reshape(*lead, N)
+            init = np.moveaxis(np.eye(K, dtype=np.int64)[lab0], -1, -2).astype(rp['hard'])
         sal = np.broadcast_to(s, (*lead, N)).copy()
         data2 = {k_: (v[..., rep, :] if k_ != 'labels' else v) for k_, v in data.items()}
         init2 = init[..., rep]
@@ -741,6 +757,7 @@ def eval_repeat(rp, rng):
 
 # ----------------------------------------------------------------------------- whole GMM fit executed by the model
 _GL = [0]
+_RPC = [0]
 
 
 def gmmloop_case(rng, tier):
